@@ -285,7 +285,15 @@ pub fn explore<S: Sys>(sc: &Scope, prop: &str, probes: &Probes, lim: &Limits) ->
     }) {
         Ok(h) => h,
         Err(v) => {
-            out.machinery.push(format!("initial state failed: {} {}", v.oracle, v.msg));
+            // creating and dropping the system already violates an oracle: a violation of this
+            // property if it owns the oracle (empty history), otherwise nothing can be explored
+            if owned_by(v.oracle, prop) {
+                out.violations.push(Found { hist: vec![], viol: v, probe: None });
+                out.cap_hit = Some("the initial state violates the property".into());
+                out.wall_s = t0.elapsed().as_secs_f64();
+            } else {
+                out.machinery.push(format!("initial state failed: {} {}", v.oracle, v.msg));
+            }
             return out;
         }
     };
